@@ -402,6 +402,9 @@ pub struct Scenario {
     pub delay_seed: u64,
     pub delay_scale_us: u64,
     pub delay_target: usize,
+    /// a consumer that has received the end marker calls `next()` this many more times before it
+    /// returns (legal use of the API; every such call must report the end again)
+    pub ask_again: usize,
 }
 
 impl Scenario {
@@ -412,6 +415,7 @@ impl Scenario {
             "err_at": self.err_at, "consumer": format!("{:?}", self.consumer),
             "init_fail": format!("{:?}", self.init_fail), "delay": self.delay.name(),
             "delay_seed": self.delay_seed, "delay_scale_us": self.delay_scale_us, "delay_target": self.delay_target,
+            "ask_again_after_end": self.ask_again,
         })
     }
     pub fn class(&self) -> String {
@@ -460,6 +464,9 @@ pub struct Seen {
     pub lean_sets: usize,
     /// sets that changed while the consumer was still holding them
     pub changed_while_lent: usize,
+    /// calls of next() made after the end marker / results they returned
+    pub asked_after_end: usize,
+    pub results_after_end: usize,
 }
 
 pub struct MockResult {
@@ -482,6 +489,7 @@ pub fn run_mock(sc: &Scenario) -> MockResult {
         _ => None,
     };
     let consumer = sc.consumer;
+    let ask_again = sc.ask_again;
     let expect_sizes = sc.sizes.clone();
     let ret = read_parallel_init::<MockReader, TopErr, _, InitErr, Out, _, InitErr, _, _, Seen>(
         sc.threads,
@@ -540,6 +548,12 @@ pub fn run_mock(sc: &Scenario) -> MockResult {
                     None => {
                         log(Ev::RecvEnd);
                         seen.end_seen = true;
+                        for _ in 0..ask_again {
+                            seen.asked_after_end += 1;
+                            if rsets.next().is_some() {
+                                seen.results_after_end += 1;
+                            }
+                        }
                         break;
                     }
                     Some(Err(e)) => {
@@ -761,6 +775,13 @@ pub fn check_mock(sc: &Scenario, res: &MockResult, entries: &[Entry], findings: 
                 }
                 _ => {}
             }
+            if seen.results_after_end > 0 {
+                f(
+                    "C15",
+                    "result-after-end-marker",
+                    format!("{} of {} calls of next() made after the end marker returned a result", seen.results_after_end, seen.asked_after_end),
+                );
+            }
             if seen.changed_while_lent > 0 {
                 f(
                     "C07",
@@ -932,6 +953,7 @@ pub fn gen_scenario_t(rng: &mut Rng, miri: bool, long: bool, thorough: bool) -> 
         delay_seed: rng.next(),
         delay_scale_us: if long { 5 } else { *rng.pick(&[5u64, 30, 100]) },
         delay_target,
+        ask_again: if rng.chance(1, 4) { 1 + rng.below(3) } else { 0 },
     }
 }
 
